@@ -7,16 +7,16 @@ From Coq Require Import ZifyBool.
 Open Scope Z_scope.
 
 (* the flags the code keeps agree with the history (ghosts) in every reachable state *)
-Definition a_inv (s : astate) : Prop :=
+Definition acc_inv (s : astate) : Prop :=
   (x_mode s = RWB <-> g_allowed s = true) /\
   (x_handle s = HOpen RWB -> g_wctx s = true /\ x_inside s = true) /\
   (x_inside s = true -> exists m, x_handle s = HOpen m) /\
   (x_inside s = false -> g_wctx s = false /\ forall m, x_handle s <> HOpen m).
 
-Lemma a_inv_init : a_inv a_init.
+Lemma a_inv_init : acc_inv a_init.
 Proof. repeat split; cbn; try discriminate; intros; discriminate. Qed.
 
-Lemma a_inv_step s c : a_inv s -> a_enabled s c = true -> a_inv (snd (a_step s c)).
+Lemma a_inv_step s c : acc_inv s -> a_enabled s c = true -> acc_inv (snd (a_step s c)).
 Proof.
   intros [H1 [H2 [H3 H4]]] He. destruct s as [m i h d ga gw]. cbn in *.
   destruct c as [| | | |k v|r]; cbn in *.
@@ -35,7 +35,7 @@ Proof.
         destruct i; cbn; try (repeat split; tauto); repeat split; intros; try discriminate.
 Qed.
 
-Lemma a_inv_run cs : forall s, a_inv s -> a_trace_ok s cs = true -> a_inv (a_run s cs).
+Lemma a_inv_run cs : forall s, acc_inv s -> a_trace_ok s cs = true -> acc_inv (a_run s cs).
 Proof.
   induction cs as [|c cs IH]; intros s Hi Ht; cbn [a_run fold_left a_trace_ok] in *; [exact Hi|].
   apply andb_prop in Ht. destruct Ht as [He Hr]. apply IH; [now apply a_inv_step|exact Hr].
@@ -131,3 +131,62 @@ Example C08_example :
   x_disk (a_run a_init [Mutator MWrite true; AllowWrite; Mutator MWrite true; Mutator MSetD3 true;
                         Reader RAuto; Enter; Mutator MWrite true; AllowWrite; Mutator MWrite true]) = 0.
 Proof. vm_compute. repeat split; reflexivity. Qed.
+
+(* ---------- the same, with the real file instead of a write counter (Session.v) ---------- *)
+From Model Require Import Container AFile Session.
+From Proofs Require Import BaseFacts ContainerFacts ContainerProps.
+
+Definition s_inv (s : sstate) : Prop := acc_inv (ss_acc s) /\ compact (ss_file s).
+
+Lemma s_inv_step s c : s_inv s -> s_enabled s c = true -> s_call_ok c -> s_inv (snd (s_step s c)).
+Proof.
+  intros [Ha Hc] He Hok. destruct c as [| |e|k o|r]; cbn [s_step snd ss_acc ss_file].
+  - split; [now apply (a_inv_step (ss_acc s) AllowWrite)|exact Hc].
+  - split; [now apply (a_inv_step (ss_acc s) Enter)|]. destruct Hc as [a [Hi ->]]. exists a. now split.
+  - split; [|exact Hc]. destruct e; [now apply (a_inv_step (ss_acc s) ExitExn)|now apply (a_inv_step (ss_acc s) ExitNormal)].
+  - pose proof (a_inv_step (ss_acc s) (Mutator k (request_ok (ss_file s) o)) Ha eq_refl) as Ha'.
+    destruct (Access.a_step (ss_acc s) (Mutator k (request_ok (ss_file s) o))) as [raised a'] eqn:E. cbn [snd] in Ha'.
+    destruct raised; cbn [snd ss_acc ss_file]; (split; [exact Ha'|]); [exact Hc|].
+    destruct (step (ss_file s) o) as [r s'] eqn:E2. cbn [snd]. eapply step_compact; [exact Hc|exact Hok|exact E2].
+  - split; [now apply (a_inv_step (ss_acc s) (Reader r))|exact Hc].
+Qed.
+
+Lemma s_inv_run cs : forall s, s_inv s -> s_trace_ok s cs = true -> Forall s_call_ok cs -> s_inv (s_run s cs).
+Proof.
+  induction cs as [|c cs IH]; intros s Hi Ht Hok; cbn [s_run fold_left s_trace_ok] in *; [exact Hi|].
+  apply andb_prop in Ht. destruct Ht as [He Hr]. inversion Hok as [|? ? H1 H2]; subst.
+  apply IH; [now apply s_inv_step|exact Hr|exact H2].
+Qed.
+
+(* over any interleaving, starting from a freshly constructed object on a compact file: the FILE — table on
+   disk, data, and what the open object holds of it — changes only through a mutation request issued inside a
+   context entered after allow_write(); everything else, accepted or refused, leaves it exactly as it was *)
+Theorem C08_file_changes_only_in_write_context : forall f cs c s,
+  compact f -> s_trace_ok (mkSS Access.a_init f) cs = true -> Forall s_call_ok cs ->
+  s = s_run (mkSS Access.a_init f) cs -> s_enabled s c = true -> s_call_ok c ->
+  ss_file (snd (s_step s c)) <> ss_file s ->
+  (exists k o, c = SMutate k o) /\ x_inside (ss_acc s) = true /\ x_handle (ss_acc s) = HOpen RWB /\
+  g_wctx (ss_acc s) = true.
+Proof.
+  intros f cs c s Hf Ht Hok -> He Hc Hd.
+  pose proof (s_inv_run cs (mkSS Access.a_init f) (conj a_inv_init Hf) Ht Hok) as [Ha Hcomp].
+  set (s := s_run (mkSS Access.a_init f) cs) in *.
+  destruct c as [| |e|k o|r]; cbn [s_step snd ss_file] in Hd; try congruence.
+  - exfalso. apply Hd. destruct Hcomp as [a [_ ->]]. reflexivity.
+  - destruct (Access.a_step (ss_acc s) (Mutator k (request_ok (ss_file s) o))) as [raised a'] eqn:E.
+    destruct raised; cbn [snd ss_file] in Hd; [congruence|].
+    split; [now exists k, o|].
+    destruct Ha as [H1 [H2 [H3 H4]]]. destruct (ss_acc s) as [m i h d ga gw]. cbn in *.
+    destruct k; destruct i, m; cbn in E; try (inversion E; fail);
+      destruct h as [|[]|]; cbn in E; try (inversion E; fail);
+      try (destruct (request_ok (ss_file s) o); inversion E; fail);
+      repeat split; tauto.
+Qed.
+Print Assumptions C08_file_changes_only_in_write_context.
+
+(* ... and whatever was let through kept the file compact (C03 / C09 hold along every interleaving) *)
+Theorem C08_session_keeps_file_compact : forall f cs,
+  compact f -> s_trace_ok (mkSS Access.a_init f) cs = true -> Forall s_call_ok cs ->
+  compact (ss_file (s_run (mkSS Access.a_init f) cs)).
+Proof. intros f cs Hf Ht Hok. apply (s_inv_run cs (mkSS Access.a_init f) (conj a_inv_init Hf) Ht Hok). Qed.
+Print Assumptions C08_session_keeps_file_compact.
